@@ -36,6 +36,10 @@ type Case struct {
 	// Split: the man in the middle forwards every record of a datagram as a datagram of its own
 	// (both directions), so that the messages of one flight arrive in separate parse passes.
 	Split bool `json:"split,omitempty"`
+	// CID: both sides negotiate connection IDs of this length (the first ClientHello then offers connection_id)
+	CID int `json:"cid,omitempty"`
+	// SrvReqEMS: the server REQUIRES the extended master secret while the client merely requests it
+	SrvReqEMS bool `json:"srvreqems,omitempty"`
 }
 
 func epsFor(c *Case) (cl, sv scen.EP) {
@@ -60,6 +64,10 @@ func epsFor(c *Case) (cl, sv scen.EP) {
 		cl.SRTP, sv.SRTP = nil, nil
 	}
 	cl.EMS, sv.EMS = c.EMS, c.EMS
+	if c.SrvReqEMS && c.EMS == 0 {
+		sv.EMS = 1
+	}
+	cl.CID, sv.CID = c.CID, c.CID
 	sv.SkipHelloVfy = c.SkipHV
 	if c.CAuth && c.KX == "cert" {
 		cl.Cert = "client-ecdsa"
@@ -408,8 +416,14 @@ func run(c Case, r *pbt.R) {
 		// 4.2.1); only the comparison with the second hello can notice a change: one root cause whatever EMS/mode
 		tail = "hello-verify-exchange"
 	}
+	mut := c.Mut
+	if c.SrvReqEMS && c.EMS == 0 && c.Mut == "drop-ext" && c.Arg%7 == 2 {
+		// not the listed leniency towards the first hello's extensions: this extension is one the server's
+		// policy REQUIRES, and the unchanged library aborts when it is missing from either hello
+		mut = "drop-ext:ems-required-by-server"
+	}
 	if recvOK {
-		r.Failf(fmt.Sprintf("C04|%s|%s-accepts|msg:%s|%s|%s", ver, receiver, msgName, c.Mut, tail),
+		r.Failf(fmt.Sprintf("C04|%s|%s-accepts|msg:%s|%s|%s", ver, receiver, msgName, mut, tail),
 			"the %s received an altered %s (%s, arg %d, %d transmissions rewritten) and still reports a successful handshake (kx=%s cauth=%v skiphv=%v; sender ok=%v)", receiver, msgName, c.Mut, c.Arg, o.altered, c.KX, c.CAuth, c.SkipHV, sendOK)
 		if r.Failed() {
 			return
@@ -418,7 +432,7 @@ func run(c Case, r *pbt.R) {
 	if sendOK {
 		// the sender of the altered message may only complete if the message belongs to its own final flight
 		// (it legitimately finished before the peer could object); none of the plaintext targets is in a final flight
-		r.Failf(fmt.Sprintf("C04|%s|%s-of-altered-message-completes|msg:%s|%s|%s", ver, sender, msgName, c.Mut, tail),
+		r.Failf(fmt.Sprintf("C04|%s|%s-of-altered-message-completes|msg:%s|%s|%s", ver, sender, msgName, mut, tail),
 			"the %s's %s was altered in transit (%s) and the %s still reports success: it completed without a Finished that covers what the peer saw", sender, msgName, c.Mut, sender)
 		if r.Failed() {
 			return
@@ -428,7 +442,7 @@ func run(c Case, r *pbt.R) {
 		r.Class("retransmission-ping-pong(>20000 datagrams at one instant)")
 	}
 	r.NonTrivial()
-	r.Key(fmt.Sprintf("%d|%s|%d|%v|%v|%v|%s|%d|%d|%s|%v", c.Ver, c.KX, c.EMS, c.Resumed, c.CAuth, c.SkipHV, c.From, c.Msg, c.Nth, c.Mut, c.Split))
+	r.Key(fmt.Sprintf("%d|%s|%d|%v|%v|%v|%s|%d|%d|%s|%v|%d|%v", c.Ver, c.KX, c.EMS, c.Resumed, c.CAuth, c.SkipHV, c.From, c.Msg, c.Nth, c.Mut, c.Split, c.CID, c.SrvReqEMS))
 	r.Class(ver + "/" + msgName + "/" + c.Mut)
 	r.Class(ems)
 	r.Class(mode)
@@ -447,6 +461,12 @@ func gen(t *rapid.T) Case {
 	}
 	c.CAuth = rapid.IntRange(0, 2).Draw(t, "cauth") == 0
 	c.SkipHV = rapid.Bool().Draw(t, "skiphv")
+	if c.Ver == 12 {
+		if rapid.IntRange(0, 2).Draw(t, "cid") == 0 {
+			c.CID = rapid.SampledFrom([]int{1, 4, 8}).Draw(t, "cidlen")
+		}
+		c.SrvReqEMS = rapid.IntRange(0, 2).Draw(t, "srvreqems") == 0
+	}
 	type tgt struct {
 		from string
 		msg  int
@@ -473,6 +493,21 @@ func gen(t *rapid.T) Case {
 }
 
 func enumGrid(_ string, yield func(Case) bool) {
+	// first ClientHello of the cookie exchange with connection IDs offered, and with a server that requires
+	// the extended master secret: every hello mutation
+	for _, mu := range chMuts {
+		for arg := 0; arg < 7; arg++ {
+			if (mu != "drop-ext" && mu != "ext-byte") && arg >= 2 {
+				continue
+			}
+			if !yield(Case{Ver: 12, KX: "cert", From: "C", Msg: 1, Nth: 0, Mut: mu, Arg: arg, CID: 4}) {
+				return
+			}
+			if !yield(Case{Ver: 12, KX: "cert", From: "C", Msg: 1, Nth: 0, Mut: mu, Arg: arg, SrvReqEMS: true}) {
+				return
+			}
+		}
+	}
 	for _, ver := range []int{12, 13} {
 		emss := []int{0, 2}
 		if ver == 13 {
